@@ -76,6 +76,15 @@ Definition code_eqb (a b : code) : bool :=
 
 Record tentry := { tc_obj : nat; tc_kA : option Qc }.   (* the cached template object and the update_var mutation it carries *)
 
+(* module tables keyed by the file name given to get_run_func/run:
+   sys_py   : file names under which sys.modules holds the PYTHON module of a default-backend compilation (base_backend.py:575;
+              removed by the backend's clear(), base_backend.py:628);
+   ext_mods : file name -> source of the Fortran extension module imported under that name.  `from <name> import <name>`
+              (fortran_backend.py:296) returns what the process imported first under that name: CPython keeps single-phase
+              extension modules per (name, path) for the life of the process, deleting sys.modules[<name>] does not help;
+   obj_file : circuit object -> the file name its backend was created with *)
+Record modtab := { sys_py : list string; ext_mods : list (string * code); obj_file : list (nat * string) }.
+
 Record G := {
   op_cache : list (string * (expr * Qc));      (* OperatorTemplate.cache : name -> (equations, default k) *)
   node_cache : list (expr * cnode);            (* node_cache (+ op_cache of ir/node.py) : structural class -> node *)
@@ -87,17 +96,19 @@ Record G := {
   module_cache : list (code * code);           (* source -> module (a module is represented by the source it was exec'd from) *)
   heap : list (nat * bool);                    (* circuit object -> does it hold an IR (`_ir is not None`) *)
   handles : list nat;                          (* circuit objects the history created, in order *)
-  nobj : nat }.
+  nobj : nat;
+  mods : modtab }.                             (* tables keyed by FILE NAME (see modtab) *)
 
 Definition G0 : G := {| op_cache := []; node_cache := []; node_labels := []; in_edge_indices := []; in_edge_vars := [];
-  input_labels := []; template_cache := None; module_cache := []; heap := []; handles := []; nobj := 0 |}.
+  input_labels := []; template_cache := None; module_cache := []; heap := []; handles := []; nobj := 0;
+  mods := {| sys_py := []; ext_mods := []; obj_file := [] |} |}.
 
 (* the components a compilation reads *)
 Record projection := { p_opc : list (string * (expr * Qc)); p_nodec : list (expr * cnode); p_labels : list (string * nat);
-  p_iei : list (string * nat); p_iev : list string; p_inl : list (string * nat); p_tmut : option Qc }.
+  p_iei : list (string * nat); p_iev : list string; p_inl : list (string * nat); p_py : list string; p_tmut : option Qc }.
 Definition proj (g : G) : projection :=
   {| p_opc := op_cache g; p_nodec := node_cache g; p_labels := node_labels g; p_iei := in_edge_indices g;
-     p_iev := in_edge_vars g; p_inl := input_labels g;
+     p_iev := in_edge_vars g; p_inl := input_labels g; p_py := sys_py (mods g);
      p_tmut := match template_cache g with Some e => tc_kA e | None => None end |}.
 
 Definition is_nil {A} (l : list A) : bool := match l with [] => true | _ => false end.
@@ -105,7 +116,8 @@ Definition is_none {A} (o : option A) : bool := match o with None => true | _ =>
 (* decidable form of  proj g = proj G0, in two parts: the caches a compilation reads, and the template cache *)
 Definition caches_clean (g : G) : bool :=
   is_nil (op_cache g) && is_nil (node_cache g) && is_nil (node_labels g) && is_nil (in_edge_indices g) &&
-  is_nil (in_edge_vars g) && is_nil (input_labels g).
+  is_nil (in_edge_vars g) && is_nil (input_labels g) && is_nil (sys_py (mods g)).
+Definition fortran_clean (g : G) : bool := is_nil (ext_mods (mods g)).
 Definition template_clean (g : G) : bool :=
   is_none (match template_cache g with Some e => tc_kA e | None => None end).
 Definition clean (g : G) : bool := caches_clean g && template_clean g.
@@ -273,7 +285,8 @@ Definition mc_store (mc : list (code * code)) (s : code) : list (code * code) :=
   match lookup code_eqb s mc with Some _ => mc | None => (s, s) :: mc end.
 
 Record compiled := { c_opc : list (string * (expr * Qc)); c_nodec : list (expr * cnode); c_labels : list (string * nat);
-                     c_iei : list (string * nat); c_iev : list string; c_mc : list (code * code); c_obs : obs }.
+                     c_iei : list (string * nat); c_iev : list string; c_mc : list (code * code); c_obs : obs;
+                     c_src : code; c_args : list cnode }.
 
 Definition compile_core (opc : list (string * (expr * Qc))) (nodec : list (expr * cnode)) (labels : list (string * nat))
            (iei : list (string * nat)) (iev : list string) (mc : list (code * code)) (m : model) (vec : bool) : compiled :=
@@ -286,71 +299,127 @@ Definition compile_core (opc : list (string * (expr * Qc))) (nodec : list (expr 
     {| c_opc := s_opc s; c_nodec := write_back circ' nodec; c_labels := s_labels s; c_iei := iei';
        c_iev := iev ++ map n_label (filter (fun c => (2 <=? List.length (n_inops c))%nat) circ);
        c_mc := mc_store mc src;
-       c_obs := OOk (arg_names vec circ') (map n_units circ') (state_map circ') (run_code (mc_fetch mc src) circ') |}
+       c_obs := OOk (arg_names vec circ') (map n_units circ') (state_map circ') (run_code (mc_fetch mc src) circ');
+       c_src := src; c_args := circ' |}
   else
     {| c_opc := s_opc s; c_nodec := write_back circ nodec; c_labels := s_labels s; c_iei := iei'; c_iev := iev;
-       c_mc := mc; c_obs := OErr "KeyError" |}.
+       c_mc := mc; c_obs := OErr "KeyError"; c_src := []; c_args := [] |}.
 
 (* ------------------------------------------------------------------ the API as a step function *)
 Inductive hop :=
 | Compile (m : model) (vec clr inpl : bool)      (* construct m from fresh template objects; get_run_func(vectorize, clear, in_place) *)
 | Run (m : model) (vec clr inpl : bool)          (* construct; run(...) : same effect on the caches *)
+| Jac (m : model) (vec clr inpl : bool)          (* construct; get_jacobian_func(...) : same effect on the caches *)
+| FCompile (m : model) (file : string) (clr : bool)  (* construct; get_run_func(backend='fortran', file_name=file, vectorize=False) *)
 | YLoad (clr : bool)                             (* CircuitTemplate.from_yaml(p).get_run_func(vectorize=False, in_place=False, clear) *)
 | YUpd (v : Qc)                                  (* CircuitTemplate.from_yaml(p).update_var({A/op/k: v}) *)
 | MClear (h : nat)                               (* <circuit h>.clear() *)
 | UClear (h : nat)                               (* pyrates.clear(<circuit h>) *)
 | CFC (tc ic : bool).                            (* clear_frontend_caches(clear_template_cache, clear_ir_cache) *)
 
+(* THE SWITCH: false = PyRates as it is; true = with /verif/fixes/proposed_fix_C13_clear.diff applied (circuit.clear() and
+   pyrates.clear() tolerate `_ir is None` and reset every process-global frontend cache unconditionally;
+   clear_frontend_caches(clear_ir_cache=True) also clears in_edge_indices, in_edge_vars, input_labels).
+   harness/c13.py reads this line. *)
+Definition fixed_clear : bool := false.
+
+Definition default_file : string := "m".
+
 Definition with_caches (g : G) (opc : list (string * (expr * Qc))) (nodec : list (expr * cnode)) (labels : list (string * nat))
            (iei : list (string * nat)) (iev : list string) (inl : list (string * nat)) : G :=
   {| op_cache := opc; node_cache := nodec; node_labels := labels; in_edge_indices := iei; in_edge_vars := iev;
      input_labels := inl; template_cache := template_cache g; module_cache := module_cache g; heap := heap g;
-     handles := handles g; nobj := nobj g |}.
+     handles := handles g; nobj := nobj g; mods := mods g |}.
 
-(* CircuitTemplate.clear on an object that holds an IR: CircuitIR.clear (in_edge_indices, in_edge_vars), clear_ir_caches
-   (node_cache, op_cache, node_labels), OperatorTemplate.cache.clear(), input_labels.clear() *)
-Definition clear_caches (g : G) : G := with_caches g [] [] [] [] [] [].
+Definition set_mods (t : modtab) (g : G) : G :=
+  {| op_cache := op_cache g; node_cache := node_cache g; node_labels := node_labels g; in_edge_indices := in_edge_indices g;
+     in_edge_vars := in_edge_vars g; input_labels := input_labels g; template_cache := template_cache g;
+     module_cache := module_cache g; heap := heap g; handles := handles g; nobj := nobj g; mods := t |}.
 
-(* clear_frontend_caches: template_cache if tc; OperatorTemplate.cache + clear_ir_caches if ic; nothing else *)
-Definition cfc (tc ic : bool) (g : G) : G :=
+Definition remove_s (f : string) (l : list string) : list string := filter (fun x => negb (String.eqb f x)) l.
+Definition add_s (f : string) (l : list string) : list string := if existsb (String.eqb f) l then l else l ++ [f].
+Definition file_of (g : G) (o : nat) : string :=
+  match lookup Nat.eqb o (obj_file (mods g)) with Some f => f | None => default_file end.
+
+(* the frontend caches: CircuitIR.clear (in_edge_indices, in_edge_vars), clear_ir_caches (node_cache, op_cache, node_labels),
+   OperatorTemplate.cache.clear(), input_labels.clear() *)
+Definition clear_frontend (g : G) : G := with_caches g [] [] [] [] [] [].
+(* CircuitTemplate.clear on object o that holds an IR: the above, and the backend's clear() drops sys.modules[<its file name>] *)
+Definition clear_caches (o : nat) (g : G) : G :=
+  set_mods {| sys_py := remove_s (file_of g o) (sys_py (mods g)); ext_mods := ext_mods (mods g); obj_file := obj_file (mods g) |}
+           (clear_frontend g).
+
+(* clear_frontend_caches: template_cache if tc; OperatorTemplate.cache + clear_ir_caches if ic; nothing else — unless fixed *)
+Definition cfc_with (fx tc ic : bool) (g : G) : G :=
   {| op_cache := if ic then [] else op_cache g; node_cache := if ic then [] else node_cache g;
-     node_labels := if ic then [] else node_labels g; in_edge_indices := in_edge_indices g; in_edge_vars := in_edge_vars g;
-     input_labels := input_labels g; template_cache := if tc then None else template_cache g;
-     module_cache := module_cache g; heap := heap g; handles := handles g; nobj := nobj g |}.
+     node_labels := if ic then [] else node_labels g;
+     in_edge_indices := if fx && ic then [] else in_edge_indices g; in_edge_vars := if fx && ic then [] else in_edge_vars g;
+     input_labels := if fx && ic then [] else input_labels g; template_cache := if tc then None else template_cache g;
+     module_cache := module_cache g; heap := heap g; handles := handles g; nobj := nobj g; mods := mods g |}.
 
 Definition set_ir (o : nat) (b : bool) (g : G) : G :=
   {| op_cache := op_cache g; node_cache := node_cache g; node_labels := node_labels g; in_edge_indices := in_edge_indices g;
      in_edge_vars := in_edge_vars g; input_labels := input_labels g; template_cache := template_cache g;
-     module_cache := module_cache g; heap := upsert Nat.eqb o b (heap g); handles := handles g; nobj := nobj g |}.
+     module_cache := module_cache g; heap := upsert Nat.eqb o b (heap g); handles := handles g; nobj := nobj g; mods := mods g |}.
 
 Definition new_obj (g : G) : G * nat :=
   ({| op_cache := op_cache g; node_cache := node_cache g; node_labels := node_labels g; in_edge_indices := in_edge_indices g;
       in_edge_vars := in_edge_vars g; input_labels := input_labels g; template_cache := template_cache g;
-      module_cache := module_cache g; heap := upsert Nat.eqb (nobj g) false (heap g); handles := handles g; nobj := S (nobj g) |},
+      module_cache := module_cache g; heap := upsert Nat.eqb (nobj g) false (heap g); handles := handles g; nobj := S (nobj g);
+      mods := mods g |},
    nobj g).
 
 Definition push_handle (o : nat) (g : G) : G :=
   {| op_cache := op_cache g; node_cache := node_cache g; node_labels := node_labels g; in_edge_indices := in_edge_indices g;
      in_edge_vars := in_edge_vars g; input_labels := input_labels g; template_cache := template_cache g;
-     module_cache := module_cache g; heap := heap g; handles := handles g ++ [o]; nobj := nobj g |}.
+     module_cache := module_cache g; heap := heap g; handles := handles g ++ [o]; nobj := nobj g; mods := mods g |}.
 
 Definition set_template (e : option tentry) (g : G) : G :=
   {| op_cache := op_cache g; node_cache := node_cache g; node_labels := node_labels g; in_edge_indices := in_edge_indices g;
      in_edge_vars := in_edge_vars g; input_labels := input_labels g; template_cache := e;
-     module_cache := module_cache g; heap := heap g; handles := handles g; nobj := nobj g |}.
+     module_cache := module_cache g; heap := heap g; handles := handles g; nobj := nobj g; mods := mods g |}.
 
 Definition has_ir (g : G) (o : nat) : bool := match lookup Nat.eqb o (heap g) with Some b => b | None => false end.
 
-(* get_run_func / run on circuit object o: apply (reads and writes the caches), then `if clear: net.clear()`; `self._ir = net._ir` *)
+Definition after_compile (g : G) (c : compiled) (mc : list (code * code)) : G :=
+  {| op_cache := c_opc c; node_cache := c_nodec c; node_labels := c_labels c; in_edge_indices := c_iei c;
+     in_edge_vars := c_iev c; input_labels := input_labels g; template_cache := template_cache g;
+     module_cache := mc; heap := heap g; handles := handles g; nobj := nobj g; mods := mods g |}.
+
+(* default backend: get_run_func / run / get_jacobian_func on circuit object o: apply (reads and writes the caches), the generated
+   module is registered as sys.modules[<file>], then `if clear: net.clear()`; `self._ir = net._ir` *)
 Definition compile_obj (g : G) (o : nat) (m : model) (vec clr : bool) : G * obs :=
   let c := compile_core (op_cache g) (node_cache g) (node_labels g) (in_edge_indices g) (in_edge_vars g) (module_cache g) m vec in
-  let g1 := {| op_cache := c_opc c; node_cache := c_nodec c; node_labels := c_labels c; in_edge_indices := c_iei c;
-               in_edge_vars := c_iev c; input_labels := input_labels g; template_cache := template_cache g;
-               module_cache := c_mc c; heap := heap g; handles := handles g; nobj := nobj g |} in
+  let g1 := after_compile g c (c_mc c) in
   match c_obs c with
-  | OOk _ _ _ _ => (if clr then set_ir o false (clear_caches g1) else set_ir o true g1, c_obs c)
+  | OOk _ _ _ _ =>
+      let g2 := set_mods {| sys_py := add_s (file_of g o) (sys_py (mods g)); ext_mods := ext_mods (mods g);
+                            obj_file := obj_file (mods g) |} g1 in
+      (if clr then set_ir o false (clear_caches o g2) else set_ir o true g2, c_obs c)
   | _ => (g1, c_obs c)        (* the exception leaves the caches as they are; `_ir` is not assigned *)
   end.
+
+(* Fortran backend (non-vectorized): same frontend path; then f2py and `from <file> import <file>`:
+   ImportError when sys.modules[<file>] is the Python module of an uncleared default-backend compilation (D19);
+   the routine of the FIRST extension module imported under <file> in this process otherwise (D29) *)
+Definition with_dy (o : obs) (dy : list Qc) : obs := match o with OOk n k s _ => OOk n k s dy | _ => o end.
+Definition fcompile_obj (g : G) (o : nat) (m : model) (file : string) (clr : bool) : G * obs :=
+  let c := compile_core (op_cache g) (node_cache g) (node_labels g) (in_edge_indices g) (in_edge_vars g) [] m false in
+  let g1 := after_compile g c (module_cache g) in
+  match c_obs c with
+  | OOk _ _ _ _ =>
+      if existsb (String.eqb file) (sys_py (mods g)) then (g1, OErr "ImportError")
+      else
+        let modl := match lookup String.eqb file (ext_mods (mods g)) with Some s => s | None => c_src c end in
+        let ext' := match lookup String.eqb file (ext_mods (mods g)) with
+                    | Some _ => ext_mods (mods g) | None => (file, c_src c) :: ext_mods (mods g) end in
+        let g2 := set_mods {| sys_py := sys_py (mods g); ext_mods := ext'; obj_file := obj_file (mods g) |} g1 in
+        (if clr then set_ir o false (clear_caches o g2) else set_ir o true g2, with_dy (c_obs c) (run_code modl (c_args c)))
+  | _ => (g1, c_obs c)
+  end.
+
+Definition reg_file (o : nat) (file : string) (g : G) : G :=
+  set_mods {| sys_py := sys_py (mods g); ext_mods := ext_mods (mods g); obj_file := upsert Nat.eqb o file (obj_file (mods g)) |} g.
 
 (* the template the YAML file on disk defines, with the update_var mutation the cached object carries *)
 Definition E1 : expr := Add (Neg (Mul VK VX)) VR.
@@ -370,39 +439,52 @@ Definition from_yaml (g : G) : G * tentry :=
 Definition handle (g : G) (h : nat) : option nat :=
   match handles g with [] => None | hs => nth_error hs (h mod List.length hs) end.
 
-Definition step (g : G) (o : hop) : G * obs :=
+Definition step_with (fx : bool) (g : G) (o : hop) : G * obs :=
   match o with
-  | Compile m vec clr _ | Run m vec clr _ =>
+  | Compile m vec clr _ | Run m vec clr _ | Jac m vec clr _ =>
       let '(g1, ob) := new_obj g in compile_obj (push_handle ob g1) ob m vec clr
+  | FCompile m file clr =>
+      let '(g1, ob) := new_obj g in fcompile_obj (reg_file ob file (push_handle ob g1)) ob m file clr
   | YLoad clr =>
       let '(g1, e) := from_yaml g in compile_obj (push_handle (tc_obj e) g1) (tc_obj e) (ymodel (tc_kA e)) false clr
   | YUpd v =>
       let '(g1, e) := from_yaml g in (set_template (Some {| tc_obj := tc_obj e; tc_kA := Some v |}) g1, OAck)
   | MClear h =>
       match handle g h with
-      | Some ob => if has_ir g ob then (set_ir ob false (clear_caches g), OAck) else (g, OErr "AttributeError")
-      | None => (g, OErr "AttributeError")          (* a circuit that was never compiled: `self._ir` is None *)
+      | Some ob => if has_ir g ob then (set_ir ob false (clear_caches ob g), OAck)
+                   else if fx then (clear_frontend g, OAck) else (g, OErr "AttributeError")
+      | None => if fx then (clear_frontend g, OAck)
+                else (g, OErr "AttributeError")          (* a circuit that was never compiled: `self._ir` is None *)
       end
   | UClear h =>
       match handle g h with
-      | Some ob => if has_ir g ob then (cfc true true (set_ir ob false (clear_caches g)), OAck) else (cfc true true g, OAck)
-      | None => (cfc true true g, OAck)             (* AttributeError swallowed by utility.clear, then clear_frontend_caches() *)
+      | Some ob => if has_ir g ob then (cfc_with fx true true (set_ir ob false (clear_caches ob g)), OAck)
+                   else (cfc_with fx true true (if fx then clear_frontend g else g), OAck)
+      | None => (cfc_with fx true true (if fx then clear_frontend g else g), OAck)
+                                   (* AttributeError swallowed by utility.clear, then clear_frontend_caches() *)
       end
-  | CFC tc ic => (cfc tc ic g, OAck)
+  | CFC tc ic => (cfc_with fx tc ic g, OAck)
   end.
 
-Definition run_hist (h : list hop) (g : G) : G := fold_left (fun g o => fst (step g o)) h g.
-Fixpoint trace (h : list hop) (g : G) : list obs :=
-  match h with [] => [] | o :: h' => snd (step g o) :: trace h' (fst (step g o)) end.
+Definition run_hist_with (fx : bool) (h : list hop) (g : G) : G := fold_left (fun g o => fst (step_with fx g o)) h g.
+Fixpoint trace_with (fx : bool) (h : list hop) (g : G) : list obs :=
+  match h with [] => [] | o :: h' => snd (step_with fx g o) :: trace_with fx h' (fst (step_with fx g o)) end.
+
+Definition cfc := cfc_with fixed_clear.
+Definition step := step_with fixed_clear.
+Definition run_hist := run_hist_with fixed_clear.
+Definition trace := trace_with fixed_clear.
 
 (* ------------------------------------------------------------------ Spec side *)
-(* the observable of model m compiled in state g *)
-Definition obs_of (g : G) (m : model) (vec : bool) : obs := snd (step g (Compile m vec false false)).
-Definition obs_of_yaml (g : G) : obs := snd (step g (YLoad false)).
+(* the observable of model m compiled in state g (compilations do not depend on the switch) *)
+Definition obs_of (g : G) (m : model) (vec : bool) : obs := snd (step_with false g (Compile m vec false false)).
+Definition obs_of_yaml (g : G) : obs := snd (step_with false g (YLoad false)).
+Definition obs_of_fortran (g : G) (m : model) (file : string) : obs := snd (step_with false g (FCompile m file false)).
 
 (* the guard: the history leaves the components a compilation reads as a fresh process has them *)
 Definition CachesClean (h : list hop) : bool := caches_clean (run_hist h G0).
 Definition TemplateClean (h : list hop) : bool := template_clean (run_hist h G0).
+Definition FortranClean (h : list hop) : bool := fortran_clean (run_hist h G0).
 Definition Compatible (h : list hop) : bool := CachesClean h && TemplateClean h.
 
 (* a syntactic sufficient condition: every compilation asks for clear=True, and every update_var on a cached template is
@@ -410,7 +492,8 @@ Definition Compatible (h : list hop) : bool := CachesClean h && TemplateClean h.
 Fixpoint disciplined (tmut : bool) (h : list hop) : bool :=
   match h with
   | [] => negb tmut
-  | Compile _ _ clr _ :: h' | Run _ _ clr _ :: h' | YLoad clr :: h' => clr && disciplined tmut h'
+  | Compile _ _ clr _ :: h' | Run _ _ clr _ :: h' | Jac _ _ clr _ :: h' | FCompile _ _ clr :: h' | YLoad clr :: h' =>
+      clr && disciplined tmut h'
   | YUpd _ :: h' => disciplined true h'
   | MClear _ :: h' => disciplined tmut h'
   | UClear _ :: h' => disciplined false h'
